@@ -979,13 +979,28 @@ func runC14(p *Prog, r *Report, tier string) {
 			_ = mint
 		}
 	}
-	// the success exit of a deposit returns the error of its last step (not a constant nil)
+	// the success exit of a deposit carries the outcome of its last step, the event emission:
+	// it returns the emission's error itself, or returns nil only behind `emit error == nil`
 	if c := p.fc(r, p.Func("keeper.msgServer.depositForBurn"), "depositForBurn", nil); c != nil {
+		var emits []*ssa.Call
+		for _, e := range p.effects(c.fn).direct {
+			if call, ok := e.In.(*ssa.Call); ok && e.Kind == "EVENT" {
+				emits = append(emits, call)
+			}
+		}
 		for _, s := range c.successReturns() {
 			ret := s.(*ssa.Return)
 			ev := errResult(ret)
-			_, isCall := ev.(*ssa.Call)
-			r.check(isCall, "post-effect-exit", "post-effect-exit/depositForBurn/success-returns-emit-error", p.instrPos(ret), "the final return carries the event emission's error", "the final return no longer carries the error of the last step")
+			ok := false
+			if call, isCall := ev.(*ssa.Call); isCall {
+				for _, e := range emits {
+					ok = ok || e == call
+				}
+			} else if k, isConst := ev.(*ssa.Const); isConst && k.Value == nil && len(emits) == 1 {
+				g := eqAtom(c.x.Of(emits[0], emits[0]), mk("const", "nil"), true, "==")
+				ok = cutQuery(c.fn, c.ifs, []Atom{g}, []ssa.Instruction{ret}).Holds
+			}
+			r.check(ok, "post-effect-exit", "post-effect-exit/depositForBurn/success-returns-emit-error", p.instrPos(ret), "the success return carries the event emission's outcome (its error, or nil only behind a nil-check of it)", "a success return reports nil without regard to the error of the event emission")
 		}
 	}
 }
